@@ -18,6 +18,10 @@ HOOKS = [
      'emit': 'gh_saw_fp = true; gh_fp_done = done; gh_fp_value = fingerprint;'},
     {'id': 'crc_spec_init', 'fn': 'generateCrc32', 'after': r'^\s*quint32 result = ', 'emit': 'gh_spec_crc = 0xffffffffu;'},
     {'id': 'crc_spec_step', 'fn': 'generateCrc32', 'before': r'^\s*\(result = ', 'emit': 'gh_spec_crc = crc_spec_step(gh_spec_crc, n);'},
+    {'id': 'e_mi_offset', 'fn': 'QXmppStunMessage_encode', 'before': r'QDataStream_wr_u16\(&stream, \(\(quint16\)AttributeType__MessageIntegrity\)\)',
+     'emit': 'gh_e_saw_mi = true; gh_e_mi_off = buffer.n;'},
+    {'id': 'e_fp_offset', 'fn': 'QXmppStunMessage_encode', 'before': r'QDataStream_wr_u16\(&stream, \(\(quint16\)AttributeType__Fingerprint\)\)',
+     'emit': 'gh_e_saw_fp = true; gh_e_fp_off = buffer.n;'},
 ]
 
 
@@ -115,6 +119,54 @@ void h_peekType(void) {
               note='keys of every length 0..65556 (RFC 2104 incl. keys longer than the block), MD5 and SHA-1; the two 64-iteration pad loops fully unwound')
     proofs.append(labelled(p, 'generateHmac', sp_hmac))
     alltext += c
+    # ---------------------------------------------------------------- encoder side (write-log model)
+    wprof = profile('wlog')
+    wprof.hooks = HOOKS
+    wb = Builder('C14', work, wprof)
+    sp_enc = wb.spec('encode.spec')
+    t_enc = wb.lower(Target(STUN, 'QXmppStunMessage', 'encode', 'QXmppStunMessage_encode', this='QXmppStunMessage'), sp_enc)
+    sp_aa = wb.spec('addAddress.spec')
+    t_aa = wb.lower(Target(STUN, 'addAddress', 'addAddress', 'addAddress'), sp_aa)
+    sp_ea = wb.spec('encodeAddress.spec')
+    t_ea = wb.lower(Target(STUN, 'encodeAddress', 'encodeAddress', 'encodeAddress'), sp_ea)
+    sp_es = wb.spec('encodeString.spec')
+    t_es = wb.lower(Target(STUN, 'encodeString', 'encodeString', 'encodeString'), sp_es)
+    t_sbl_w = wb.lower(Target(STUN, 'setBodyLength', 'setBodyLength', 'setBodyLength'), sp_sbl)
+    wcontext = wb.context()
+    wpre = '#define QBA_OWNED 40\n#define QBA_WLOG 1\n#include "bytes.h"\n#include "misc.h"\n' + wcontext + '\n' + rec + '\n' + rd('da_spec.h') + rd('enc_spec.h')
+    wharness_stream = '''
+  QByteArray buf; QByteArray_ctor(&buf); int n0; __CPROVER_assume(0 <= n0 && n0 <= 32 * QBA_MAX); buf.n = n0; buf.wlog = nondet_bool(); __CPROVER_assume(buf.wlog || n0 == 0);
+  buf.w_set = nondet_bool(); buf.w_val = nondet_char(); buf.owned = false;
+  QDataStream st; QDataStream_ctor_rw(&st, &buf, 2); st.pos = n0;
+  int xn; __CPROVER_assume(0 <= xn && xn <= 32); char xs[32]; QByteArray xid; QByteArray_ctor(&xid); xid.n = xn; xid.vlen = xn; xid.src = xs;
+'''
+    c = wpre + wb.prototype(t_aa) + wb.prototype(t_es) + wb.prototype(t_sbl_w) + rd('callees_encode.h') + t_enc + '''
+void h_encode(void) { __CPROVER_havoc_object(gh_utf8_store); const QXmppStunMessage *self; QByteArray *ret; const QByteArray *key; bool fp; QXmppStunMessage_encode(self, ret, key, fp); }
+'''
+    f = wb.write('encode.c', c)
+    p = Proof('encode', f, 'h_encode', enforce='QXmppStunMessage_encode', replace=['addAddress', 'encodeString', 'setBodyLength', 'generateHmacSha1', 'generateCrc32'],
+              kind='complete', loop_contracts=False, include_dirs=inc, timeout=1800,
+              note='loop-free; every message state (all attribute combinations, variable-length members up to 65556 bytes each), every key, one arbitrary witness byte of the output')
+    proofs.append(labelled(p, 'QXmppStunMessage_encode', sp_enc))
+    alltext += c
+    c = wpre + wb.prototype(t_ea) + t_aa + '\nvoid h_addAddress(void) {' + wharness_stream + '  QHostAddress host; quint16 type, port; addAddress(&st, type, &host, port, &xid); }\n'
+    f = wb.write('addAddress.c', c)
+    p = Proof('addAddress', f, 'h_addAddress', enforce='addAddress', replace=['encodeAddress'], kind='complete', loop_contracts=False, include_dirs=inc, timeout=600)
+    proofs.append(labelled(p, 'addAddress', sp_aa))
+    c = wpre + t_ea + '\nvoid h_encodeAddress(void) {' + wharness_stream + '  QHostAddress host; quint16 type, port; encodeAddress(&st, type, &host, port, &xid); }\n'
+    f = wb.write('encodeAddress.c', c)
+    p = Proof('encodeAddress', f, 'h_encodeAddress', enforce='encodeAddress', kind='complete', loop_contracts=False, unwind=17, include_dirs=inc, timeout=900,
+              note='the 16-iteration XOR loop fully unwound; bytes written are the inverse of what decodeAddress reads (RFC 5389 15.1/15.2)')
+    proofs.append(labelled(p, 'encodeAddress', sp_ea))
+    c = wpre + t_es + '\nvoid h_encodeString(void) { __CPROVER_havoc_object(gh_utf8_store);' + wharness_stream + '  QString s; quint16 type; encodeString(&st, type, &s); }\n'
+    f = wb.write('encodeString.c', c)
+    p = Proof('encodeString', f, 'h_encodeString', enforce='encodeString', kind='complete', loop_contracts=False, include_dirs=inc, timeout=600)
+    proofs.append(labelled(p, 'encodeString', sp_es))
+    alltext += c
+    b.functions.extend(f_ for f_ in wb.functions if f_['cname'] != 'setBodyLength')
+    b.dropped.extend(wb.dropped)
+    for k, v in wb.fired.items():
+        b.fired[k] = b.fired.get(k, 0) + v
     return {
         'proofs': proofs, 'functions': b.functions, 'dropped': b.dropped, 'fired': b.fired, 'hooks': [h['id'] + ': ' + h['emit'] for h in HOOKS],
         'assumed': ['A-QDATASTREAM (qtmodel/bytes.h): big-endian; reads past the end yield 0 and consume the rest; raw reads are short',
